@@ -51,11 +51,16 @@ impl Property for C08 {
     fn required_labels(&self) -> Vec<&'static str> {
         vec!["ack_lost", "ack_dup", "ack_delayed_3s", "ranges>=3", "rel_slice_sent", "quiescence_checked"]
     }
-    fn enums(&self, _tier: Tier) -> Vec<(&'static str, u64)> {
-        // all ordered selections (permutations of subsets) of 6 packets: sum_k 6!/(6-k)! = 1957
-        vec![("arrival_orders", 1957)]
+    fn enums(&self, tier: Tier) -> Vec<(&'static str, u64)> {
+        // all ordered selections (permutations of subsets) of 6 packets: sum_k 6!/(6-k)! = 1957;
+        // thorough: each with every subset of the (up to 6) ack packets lost
+        match tier {
+            Tier::Quick => vec![("arrival_orders", 1957)],
+            Tier::Thorough => vec![("arrival_orders", 1957), ("arrival_orders_ack_loss", 1957 * 64)],
+        }
     }
-    fn run_enum(&self, _name: &str, index: u64, ctx: &mut Ctx) -> Outcome {
+    fn run_enum(&self, name: &str, index: u64, ctx: &mut Ctx) -> Outcome {
+        let (index, ack_mask) = if name == "arrival_orders_ack_loss" { (index / 64, index % 64) } else { (index, 0) };
         // decode index -> ordered selection of distinct packets out of 6
         let mut sel: Vec<usize> = vec![];
         {
@@ -79,7 +84,7 @@ impl Property for C08 {
                 sel.push(pool.remove(pos));
             }
         }
-        ctx.op(&sel);
+        ctx.op(&(&sel, ack_mask));
         let cfg = WorldCfg {
             bytes_per_tick: 1_000_000,
             s2c: vec![Chan { id: 0, kind: Kind::Ordered, max_mem: 100_000, resend_ms: 100 }, Chan { id: 1, kind: Kind::Unordered, max_mem: 100_000, resend_ms: 100 }],
@@ -103,7 +108,10 @@ impl Property for C08 {
             // receiver acks after every prefix; the ack is delivered at once
             let acks = w.flush(d.rev())?;
             for a in acks {
-                w.handover(a)?;
+                // bit n of the mask = the ack flushed after the n-th arrival is lost
+                if ack_mask & (1 << n) == 0 {
+                    w.handover(a)?;
+                }
             }
             w.step_check()?;
             if n >= 2 {
